@@ -25,7 +25,7 @@ one() {
   local props; props=$(python3 -c "import json;print(' '.join(next(m['expected'] for m in json.load(open('$VERIF/mutants/index.json')) if m['name']=='$name')))")
   for p in $props; do
     local log="$dir/check-$p.log"
-    VERIF_REPO="$dir" VERIF_OUT="$dir/.verif-out" VERIF_WORKERS=${VERIF_WORKERS:-4} ${RUNS:+VERIF_RUNS=$RUNS} "$VERIF/check" "$p" quick >"$log" 2>&1; local rc=$?
+    env VERIF_REPO="$dir" VERIF_OUT="$dir/.verif-out" VERIF_WORKERS=${VERIF_WORKERS:-4} ${RUNS:+VERIF_RUNS=$RUNS} "$VERIF/check" "$p" quick >"$log" 2>&1; local rc=$?
     local oracle; oracle=$(grep -o "oracle=[A-Za-z0-9_.-]*" "$log" | sort -u | tr '\n' ' ')
     local verdict=MISSED; [ $rc -eq 1 ] && verdict=caught; [ $rc -ge 2 ] && verdict=harness-error
     # does the replay reproduce on the mutant and stay clean on the unchanged tree?
